@@ -10,7 +10,7 @@ From CGV Require Import Base.PyBase Base.PyVal Gen.FragGen Dialect.DialectImpl F
      Frag.StripFacts Frag.FragProofs Frag.FragTextX Frag.FragProofsX Frag.FragStages Frag.FragSmall Frag.RingProofs
      Gen.SmilesGen Frag.SmilesParse Frag.SmilesSpec Frag.SmilesProofs Frag.SmilesIndex Frag.SmilesRelabel Frag.SmilesPerm
      Frag.Template Frag.TemplateProofs Frag.TemplateFinal Frag.TemplateGraph Frag.TemplateCompose Frag.SmilesReverse Frag.SmilesPermR
-     Frag.SmilesReroot Frag.SmilesRewrite Frag.SmilesPermX.
+     Frag.SmilesReroot Frag.SmilesRewrite Frag.SmilesPermX Frag.TemplateChiral Frag.TemplateChiralProofs.
 From CGV Require Import Base.NxGraph Compose.CutModel Compose.CutSpecDefs.
 Local Open Scope nat_scope.
 Import ListNotations.
@@ -218,9 +218,9 @@ Proof. exact template_example. Qed.
     pysmiles' fill_valence (bond orders summed in half units, so aromatic atoms need no ring
     perception: cgsmiles calls read_smiles with reinterpret_aromatic=False), the hydrogens added and
     removed again, atomname, slash marks, the lone-atom path; compared with the implementation's
-    final templates on every run (every attribute except rs_isomer).  Included atom classes: all
+    final templates on every run (every attribute; rs_isomer through the extension below).  Included atom classes: all
     organic-subset atoms (aliphatic and aromatic lower case) and bracket atoms; excluded by the
-    hypothesis [plain]: chirality marks (rs_isomer is rewritten by pysmiles' stereo post-processing)
+    hypothesis [plain]: chirality marks (Compose's is_template demands rs_isomer = None: see the C13_template_rs theorems)
     and annotation keys that collide with fragid / fragname / bonding / ez_isomer_atoms / rs_isomer;
     excluded by the domain: `|n` and the wildcard.  [cut_agrees] ties the cut to the token-level
     reading of the part (as many atoms; written descriptors of atom i = the cut's descriptors of the
@@ -239,6 +239,62 @@ Proof. exact template_is_template. Qed.
 Theorem C13_template_is_template_checked : forall fo C name xs toks dc, part_okb fo C name xs toks dc = true ->
   exists T0, fragment_template_final fo name (render (decorate toks dc)) = Ok T0 /\ is_template C name xs (tmpl_graph T0).
 Proof. exact template_is_template_b. Qed.
+(** CHIRALITY MARKS in templates.  [fragment_template_final_rs] (Frag/TemplateChiral.v) = the model above
+    followed by pysmiles' stereo post-processing as it ends up in the template: a bracket atom with a mark
+    (@, @@, @TH1, ...) gets rs_isomer = the tuple of its neighbours: ring-bond partners first, in the order the
+    ring bonds were closed (found in the edge list: every bond that is not the chain bond of its second atom),
+    then the other bonded atoms by increasing index, its own index at position 1 when it has hydrogens, exactly
+    four entries (else ValueError), the last two exchanged for @@; an annotation rs_isomer overwrites it.
+    This is the model compared with fragment_iter's final templates on every run (all attributes).
+    On a rendered part it is the token-level template; without a mark it is the model above (so
+    is_template holds as before); with a mark the node carries [chiral_tuple], every other attribute
+    and the bonds are unchanged, and the tuple consists of the bonded atoms (all of them) and, only for an
+    atom with hydrogens, the atom itself.  Partial: is_template itself cannot hold for a part with a mark
+    (Compose's [tattrs_ok] demands rs_isomer = None); what the resolver does with the tuple is C15's subject *)
+Theorem C13_template_final_rs_of_render : forall fo name toks dc,
+  wf toks dc = true -> excluded toks dc = false -> wf_smiles toks = true ->
+  fragment_template_final_rs fo name (render (decorate toks dc)) = template_final_spec_rs fo name toks dc.
+Proof. exact template_final_rs_of_render. Qed.
+Theorem C13_template_rs_plain : forall name G d ez ann,
+  (forall base, In base (g_nodes G) -> aget (S "rs_isomer") base = None) ->
+  final_assemble_rs name G d ez ann = final_assemble name G d ez ann.
+Proof. exact final_assemble_rs_plain. Qed.
+Theorem C13_template_is_template_rs_partial : forall fo C name xs toks dc clean d ez ann G T0,
+  wf toks dc = true -> excluded toks dc = false -> wf_smiles toks = true ->
+  strip_spec fo toks dc = Ok (clean, d, ez, ann) -> graph_of false toks = Ok G -> final_assemble name G d ez ann = Ok T0 ->
+  plain G ann -> cut_agrees C xs T0 d ->
+  fragment_template_final_rs fo name (render (decorate toks dc)) = Ok T0 /\ is_template C name xs (tmpl_graph T0).
+Proof. exact template_is_template_rs. Qed.
+Theorem C13_template_rs_node : forall name G d ez ann T0 T i base a0,
+  final_assemble name G d ez ann = Ok T0 -> final_assemble_rs name G d ez ann = Ok T ->
+  nth_error (g_nodes G) i = Some base -> nth_error (t_nodes T0) i = Some a0 ->
+  t_edges T = t_edges T0 /\ length (t_nodes T) = length (t_nodes T0) /\
+  exists a, nth_error (t_nodes T) i = Some a /\
+    (forall k, k <> S "rs_isomer" -> aget k a = aget k a0) /\
+    match aget (S "rs_isomer") base with
+    | None => a = a0
+    | Some (VStr dir) =>
+        exists h l, final_hcount (g_edges G) i base = Ok h /\ chiral_tuple (length (g_nodes G)) (g_edges G) i dir h = Ok l /\
+          ((match nd_get i ann with Some an => aget (S "rs_isomer") an | None => None end) = None ->
+           aget (S "rs_isomer") a = Some (tuple_val l))
+    | Some _ => False
+    end.
+Proof. exact template_rs_node. Qed.
+Theorem C13_chiral_tuple_spec : forall n E i dir h l, chiral_tuple n E i dir h = Ok l ->
+  length l = 4 /\ Permutation.Permutation l (chiral_neighbours n E i h) /\
+  (forall j, In j l -> (j = i /\ h <> 0%Z) \/ adjacent E i j = true) /\
+  (forall j, adjacent E i j = true -> (j < n)%nat -> In j l).
+Proof. exact chiral_tuple_spec. Qed.
+Example C13_template_chiral_nonvacuous :
+  (exists T, fragment_template_final_rs (fo_of_table []) (S "A") (S "C1C[C@@]12CC2Cl[$]") = Ok T /\
+     map (aget (S "rs_isomer")) (t_nodes T) = [None; None; Some (tuple_val [0; 4; 3; 1]); None; None; None] /\
+     map (aget (S "bonding")) (t_nodes T) = [None; None; None; None; None; Some (VList [VStr (S "$1")])]) /\
+  (exists T, fragment_template_final_rs (fo_of_table []) (S "A") (S "F[C@H](Cl)Br") = Ok T /\
+     map (aget (S "rs_isomer")) (t_nodes T) = [None; Some (tuple_val [0; 1; 2; 3]); None; None]) /\
+  fragment_template_final_rs (fo_of_table []) (S "A") (S "[C@H2](F)Br") = Err EValue /\
+  chiral_tuple 6 [(0, 1, VInt 1); (1, 2, VInt 1); (2, 0, VInt 1); (2, 3, VInt 1); (3, 4, VInt 1); (4, 2, VInt 1); (4, 5, VInt 1)] 2 (S "@@") 0
+    = Ok [0; 4; 3; 1].
+Proof. exact chiral_example. Qed.
 (** the bonds of a token graph are simple (no self bond, no two bonds between the same atoms) and
     inside the node range; G.edges on the template graph lists each bond once, from its smaller end *)
 Theorem C13_graph_of_simple : forall ks toks G, graph_of ks toks = Ok G ->
@@ -551,3 +607,7 @@ Print Assumptions C01_start_atom_rewrite_partial.
 Print Assumptions C01_start_atom_rewrite_text_partial.
 Print Assumptions C01_branch_order_crossing_partial.
 Print Assumptions C01_branch_order_crossing_text_partial.
+Print Assumptions C13_template_final_rs_of_render.
+Print Assumptions C13_template_is_template_rs_partial.
+Print Assumptions C13_template_rs_node.
+Print Assumptions C13_chiral_tuple_spec.
